@@ -104,6 +104,9 @@ def gen_cases(rng, tier):
         cs.append(Case(no_reuse(S.gen_history(rng, asa=1, reset_y=False)), "always-seqnum-assign"))
     for _ in range(60 * mult):
         cs.append(Case(no_reuse(S.gen_acceptor_logon(rng, reset_y=False)), "acceptor-logon-flags"))
+    for _ in range(2 if tier == "thorough" else 1):
+        for line in S.gen_big_batches(rng):
+            cs.append(Case(line, "big-batches"))
     return cs
 
 
